@@ -24,16 +24,21 @@ func cstr(v value) string {
 
 var errType types.Type // set in main: type of errors.New result placeholder
 
-func mkError(msg *Term) value { return iface{t: errType, v: structure{msg, iface{}}} }
+func mkError(msg *Term) value { return mkWrapError(msg, iface{}) }
+
+// errFields returns {message, wrapped} of an engine-made error value.
+func errFields(e iface) structure { return (*e.v.(*value)).(structure) }
 
 func mkWrapError(msg *Term, wrapped value) value {
-	return iface{t: errType, v: structure{msg, wrapped}}
+	p := new(value)
+	*p = structure{msg, wrapped}
+	return iface{t: errType, v: p}
 }
 
 // unwrapOnce returns the errors wrapped by err (Unwrap() error / []error).
 func (i *Interp) unwrapOnce(caller *frame, err iface) []iface {
 	if err.t == errType {
-		w := err.v.(structure)[1].(iface)
+		w := errFields(err)[1].(iface)
 		if w.t == nil {
 			return nil
 		}
@@ -119,12 +124,8 @@ func (i *Interp) errorsAs(caller *frame, err iface, ptr *value, T types.Type, de
 }
 
 func init() {
-	nop := func(i *Interp, caller *frame, fn *ssa.Function, args []value) value { return nil }
+	_ = 0
 	base := map[string]intrinsic{
-		"(*sync.RWMutex).Lock":    nop,
-		"(*sync.RWMutex).Unlock":  nop,
-		"(*sync.RWMutex).RLock":   nop,
-		"(*sync.RWMutex).RUnlock": nop,
 		"strings.HasPrefix": func(i *Interp, _ *frame, _ *ssa.Function, a []value) value {
 			return StrPrefixOf(a[1].(*Term), a[0].(*Term))
 		},
@@ -184,7 +185,7 @@ func init() {
 				return iface{}
 			}
 			if e.t == errType {
-				return e.v.(structure)[1]
+				return errFields(e)[1]
 			}
 			f := i.method(e.t, "Unwrap")
 			if f == nil {
@@ -211,7 +212,7 @@ func (i *Interp) formatValue(caller *frame, arg iface, verb byte) *Term {
 	// error / Stringer
 	if verb != 'd' && verb != 'x' {
 		if arg.t == errType {
-			return arg.v.(structure)[0].(*Term)
+			return errFields(arg)[0].(*Term)
 		}
 		if _, isBasic := arg.t.Underlying().(*types.Basic); !isBasic || i.method(arg.t, "String") != nil || i.method(arg.t, "Error") != nil {
 			for _, m := range []string{"Error", "String"} {
@@ -238,6 +239,9 @@ func (i *Interp) formatValue(caller *frame, arg iface, verb byte) *Term {
 			}
 			return v
 		case SBV:
+			if v.Op == "hs.digest" {
+				return StrConcat(TStr("#"), v.Args[0])
+			}
 			if v.Const {
 				_, signed, _ := bvWidth(arg.t)
 				if verb == 'x' {
@@ -369,17 +373,21 @@ func (i *Interp) assert(c *Term, label string) {
 }
 
 func init() {
-	ident := func(k int) intrinsic {
-		return func(i *Interp, _ *frame, _ *ssa.Function, a []value) value { return a[k] }
-	}
 	tp := "github.com/go-task/task/v3/internal/templater."
 	more := map[string]intrinsic{
-		tp + "Replace":             ident(0),
-		tp + "ReplaceWithExtra":    ident(0),
-		tp + "ReplaceVar":          ident(0),
-		tp + "ReplaceVarWithExtra": ident(0),
-		tp + "ReplaceVars":         ident(0),
-		tp + "ReplaceGlobs":        ident(0),
+		tp + "ReplaceWithExtra": templaterReplace,
+		tp + "ResolveRef": func(i *Interp, caller *frame, _ *ssa.Function, a []value) value {
+			ref := a[0].(*Term)
+			if !ref.Const {
+				fault("templater.ResolveRef: symbolic ref")
+			}
+			name := strings.TrimPrefix(strings.TrimSpace(ref.S), ".")
+			v, ok := i.templateLookup(caller, a[1], nil, name)
+			if !ok {
+				return iface{}
+			}
+			return v
+		},
 		"(*github.com/Masterminds/semver/v3.Version).Equal": func(i *Interp, _ *frame, _ *ssa.Function, a []value) value {
 			return TBool(true)
 		},
@@ -392,3 +400,129 @@ func init() {
 	}
 }
 
+
+// ---- templater model ---------------------------------------------------------------------
+//
+// text/template + reflection (templater.ReplaceWithExtra, deepcopy.TraverseStringsFunc) are
+// not encoded. Contract of the stub: every string reachable in the value is rendered by
+// replacing each "{{.NAME}}" with the value of NAME (extra first, then the cache's Vars;
+// missing names render empty). Any other template syntax in a harness Taskfile is an engine
+// fault; symbolic strings are template-free by harness construction and returned unchanged.
+
+func (i *Interp) templateLookup(caller *frame, cache value, extra *mapV, name string) (iface, bool) {
+	if extra != nil {
+		for k := range extra.keys {
+			if kt, ok := extra.keys[k].(*Term); ok && kt.Const && kt.S == name {
+				return extra.vals[k].(iface), true
+			}
+		}
+	}
+	cp, _ := cache.(*value)
+	if cp == nil {
+		return iface{}, false
+	}
+	varsPtr := (*cp).(structure)[0] // Cache.Vars
+	get := i.method(types.NewPointer(i.ld.namedType(modulePath+"/taskfile/ast", "Vars")), "Get")
+	if get == nil {
+		fault("templater model: (*ast.Vars).Get not found")
+	}
+	r := i.call(caller, 0, get, []value{varsPtr, TStr(name)}).(tuple)
+	if !i.branch(r[1].(*Term)) {
+		return iface{}, false
+	}
+	v := r[0].(structure) // ast.Var{Value, Live, Sh, Ref, Dir}
+	if live, ok := v[1].(iface); ok && live.t != nil {
+		return live, true
+	}
+	return v[0].(iface), true
+}
+
+func (i *Interp) templateRender(caller *frame, s *Term, cache value, extra *mapV) *Term {
+	if !s.Const {
+		return s
+	}
+	if !strings.Contains(s.S, "{{") {
+		return s
+	}
+	out := TStr("")
+	rest := s.S
+	for {
+		k := strings.Index(rest, "{{")
+		if k < 0 {
+			out = StrConcat(out, TStr(rest))
+			break
+		}
+		out = StrConcat(out, TStr(rest[:k]))
+		e := strings.Index(rest[k:], "}}")
+		if e < 0 {
+			fault("templater model: unterminated action in %q", s.S)
+		}
+		action := strings.TrimSpace(rest[k+2 : k+e])
+		rest = rest[k+e+2:]
+		if !strings.HasPrefix(action, ".") || strings.ContainsAny(action, " |()") {
+			fault("templater model: unsupported template action %q", action)
+		}
+		v, ok := i.templateLookup(caller, cache, extra, action[1:])
+		if ok && v.t != nil {
+			out = StrConcat(out, i.formatValue(caller, v, 'v'))
+		}
+	}
+	return out
+}
+
+func (i *Interp) templateTraverse(caller *frame, v value, cache value, extra *mapV) value {
+	switch x := v.(type) {
+	case *Term:
+		if x.Sort == SStr {
+			return i.templateRender(caller, x, cache, extra)
+		}
+		return x
+	case []value:
+		if x == nil {
+			return x
+		}
+		out := make([]value, len(x))
+		for k := range x {
+			out[k] = i.templateTraverse(caller, x[k], cache, extra)
+		}
+		return out
+	case iface:
+		if x.t == nil {
+			return x
+		}
+		return iface{t: x.t, v: i.templateTraverse(caller, x.v, cache, extra)}
+	case *value:
+		if x == nil {
+			return x
+		}
+		if t, ok := (*x).(*Term); ok && t.Sort == SStr {
+			p := new(value)
+			*p = i.templateRender(caller, t, cache, extra)
+			return p
+		}
+		return x
+	case *mapV:
+		if x == nil {
+			return x
+		}
+		out := &mapV{}
+		for k := range x.keys {
+			out.keys = append(out.keys, x.keys[k])
+			out.vals = append(out.vals, i.templateTraverse(caller, x.vals[k], cache, extra))
+		}
+		return out
+	}
+	return v
+}
+
+func templaterReplace(i *Interp, caller *frame, _ *ssa.Function, a []value) value {
+	cp, _ := a[1].(*value)
+	if cp == nil {
+		nilDeref("templater cache")
+	}
+	if e, ok := (*cp).(structure)[2].(iface); ok && e.t != nil {
+		return a[0] // cache.err != nil: do nothing
+	}
+	extra, _ := a[2].(*mapV)
+	return i.templateTraverse(caller, a[0], a[1], extra)
+}
